@@ -31,7 +31,7 @@ const (
 func TestMain(m *testing.M) {
 	vk.Main(m, vk.Config{
 		Property: "C14",
-		Rule: "store test: a generated history (1-6 concurrent committers, or 1-6 concurrent replicators with a generated launch order so that values land in the value logs out of id order; " +
+		Rule: "store test: a generated history (1-6 concurrent committers, or 1-9 concurrent replicators with a generated launch order so that values land in the value logs out of id order; " +
 			"MaxIOConcurrency 1-4, FileSize 64-512 B, value sizes around the chunk size, empty values at any position, compression on/off, value cache on/off) followed by a generated program of " +
 			"truncations (any cut point, repeated, lower after higher, edge cuts 0 and committed+1), further commits, restarts and concurrent phases (truncations racing with each other, with writers and with readers); " +
 			"after every step the whole store is compared with the ledger filled at acknowledgement (ReadTx+ReadValue, Get, History, ExportTx under a 30 s liveness bound, headers, Alh, dual proofs, inclusion proofs, twin replication of the exports). " +
@@ -39,9 +39,10 @@ func TestMain(m *testing.M) {
 			"Non-trivial (store): a truncation deleted >= 1 chunk file while some tx >= n has its values located before the values of a tx < n in the same value log; (database): a truncation deleted >= 1 chunk file and the catalog was created before the cut. " +
 			"Distinct by hash of (configuration, placement of the values, program).",
 		Assumptions: []string{
-			"ExportTx is the only call whose termination is bounded by wall clock (30 s, the property is about termination); every other oracle is value equality with the ledger",
-			"cut points of truncations that race with writers are at most the last transaction committed before those writers started (a retention period is far larger than a commit): the window between the value-log append of an in-flight transaction and its precommit racing with a truncation whose cut was committed after that append is not generated (no hook can hold a committer there; see report)",
-			"ExportTx of a transaction below the cut may return all values (nothing of it was deleted yet), digests only, or an explicit error; SELECT over SQL rows / documents written below the cut is not asserted (their values were deleted on purpose), only rows at or after the cut, the catalog, and new inserts",
+			"only termination is bounded by wall clock: 30 s for a single ExportTx, 90 s for a whole concurrent phase (a few dozen calls), 120 s for the index to catch up / for the harness' own replicators; every other oracle is value equality with the ledger",
+			"cut points of truncations that race with committers are at most the last transaction committed before those committers started (a retention period is far larger than a commit); a truncation racing with transactions whose values are already appended but which are not committed yet is generated only in the replication loader and is excluded while known finding K14c is open",
+			"ExportTx of a transaction below the cut may return all values (nothing of it was deleted yet), digests only, or an explicit error; an out-of-range cut (0, committed+1, ...) may be rejected or accepted, it must not damage anything at or after the current cut",
+			"database test: SELECT / document search over rows written below the cut is not asserted (their values were deleted on purpose): only the catalog, rows and documents at or after the cut (read through a primary-key / indexed range that starts at the first retained row), point reads of rows whose latest version is at or after the cut, and new inserts",
 			"embedded-values stores are not generated (truncation is a no-op there)",
 			"histories written by concurrent committers are schedule dependent: a replay re-draws the same plan but not necessarily the same interleaving",
 		},
@@ -74,6 +75,30 @@ func boundedMarker(fn func()) { fn() }
 // i.e. nobody who could still release a lock is making progress (lock holders inside immudb do I/O or wait for
 // other locks; none of them sleeps or selects while holding a value-log lock or the export mutex).
 func bounded(parked string, fns ...func()) (finished bool) {
+	return boundedFor(liveness, parked, fns...)
+}
+
+// hangDump holds the immudb-related goroutines at the time the last bounded call gave up (diagnostics for the replay file).
+var hangDump atomic.Value
+
+func snapshotHang() {
+	buf := make([]byte, 8<<20)
+	n := runtime.Stack(buf, true)
+	var keep []string
+	for _, g := range strings.Split(string(buf[:n]), "\n\n") {
+		if strings.Contains(g, "codenotary/immudb") {
+			keep = append(keep, addrRe.ReplaceAllString(g, ""))
+		}
+	}
+	hangDump.Store(keep)
+}
+
+func boundedFor(bound time.Duration, parked string, fns ...func()) (finished bool) {
+	defer func() {
+		if !finished {
+			snapshotHang()
+		}
+	}()
 	var left atomic.Int32
 	left.Store(int32(len(fns)))
 	done := make(chan struct{})
@@ -99,7 +124,7 @@ func bounded(parked string, fns ...func()) (finished bool) {
 			boundedMarker(fn)
 		}()
 	}
-	deadline := time.NewTimer(liveness)
+	deadline := time.NewTimer(bound)
 	defer deadline.Stop()
 	select {
 	case <-done:
